@@ -46,8 +46,7 @@ impl Client {
                 let db_box = dbs_maps.get(db_name);
                 match db_box {
                     Some(db) => {
-                        db.dec_connections();
-                        set_connection_counter(db, &dbs);
+                        change_connection_counter(db, &dbs, false);
                     }
                     _ => (),
                 }
